@@ -294,11 +294,23 @@ OPS = {ast.Lt: '<', ast.LtE: '<=', ast.Gt: '>', ast.GtE: '>=', ast.Eq: '==', ast
 NEG = {'<': '>=', '<=': '>', '>': '<=', '>=': '<', '==': '!=', '!=': '=='}
 
 
-def cmp_norm(N, test, env=None, truth=True):
+def cmp_norm(N, test, env=None, truth=True, _depth=0, names=False):
     """normalise `a OP b` (taken with the given truth value) to (Lin, op) meaning  Lin op 0
     with op in {'<', '<=', '==', '!='}; None when `test` is not a single comparison."""
     if isinstance(test, ast.UnaryOp) and isinstance(test.op, ast.Not):
-        return cmp_norm(N, test.operand, env, not truth)
+        return cmp_norm(N, test.operand, env, not truth, _depth, names)
+    if isinstance(test, ast.Name) and env is not None and _depth < 4 and names:
+        # a boolean local defined once by a comparison (`has_room = level + n <= capacity`) is that comparison
+        d = None
+        if isinstance(env, FrameEnv):
+            r = env.resolve(test.id)
+            if r is not None:
+                d, env2 = r
+        elif test.id in env:
+            d, env2 = env[test.id], {k: v for k, v in env.items() if k != test.id}
+        if d is not None and (isinstance(d, (ast.Compare, ast.Name)) or (isinstance(d, ast.UnaryOp) and isinstance(d.op, ast.Not))):
+            return cmp_norm(N, d, env2, truth, _depth + 1, names=True)
+        return None
     if not (isinstance(test, ast.Compare) and len(test.ops) == 1):
         return None
     op = OPS.get(type(test.ops[0]))
